@@ -321,3 +321,70 @@ func TestC08_R_FullCollision(t *testing.T) {
 		}
 	}
 }
+
+const c08SharedRule = "case = a sequence of 2..4 related entry sets (the first, then with entries added / removed / re-sized) each built with BuildUnixFSShardedDirectory into ONE shared store / link system and with the reference HAMT into a fresh one; oracle = every build's root CID and size equal the reference's, although most shard blocks already exist in the shared store; non-trivial = a later build that re-creates at least one stored shard; distinct by (fanout, size bucket, steps)"
+
+// TestC08_P_SharedStoreRebuilds: the builder's output must not depend on what the link system already holds.
+func TestC08_P_SharedStoreRebuilds(t *testing.T) {
+	ev := newEvid(t, c08SharedRule)
+	rapid.Check(t, func(t *rapid.T) {
+		names, _ := genNames(t, nameOpts{Max: scale(120, 600)})
+		if len(names) < 3 {
+			names = append(names, "a", "b", "c")
+		}
+		fanout := genFanout(t)
+		cur := map[string]entrySpec{}
+		for _, n := range names {
+			cur[n] = entryFor(n, 0)
+		}
+		shared := NewStore()
+		steps := rapid.IntRange(2, 4).Draw(t, "steps")
+		recreated := false
+		for s := 0; s < steps; s++ {
+			if s > 0 {
+				switch rapid.IntRange(0, 3).Draw(t, "change") {
+				case 0:
+					cur[fmt.Sprintf("added-%d", s)] = entryFor(fmt.Sprintf("added-%d", s), s)
+				case 1:
+					delete(cur, names[rapid.IntRange(0, len(names)-1).Draw(t, "rm")])
+				case 2:
+					n := names[rapid.IntRange(0, len(names)-1).Draw(t, "resize")]
+					if e, ok := cur[n]; ok {
+						e.Tsize += 7
+						cur[n] = e
+					}
+				default: // identical rebuild
+				}
+				if len(cur) == 0 {
+					cur["last"] = entryFor("last", 0)
+				}
+			}
+			var es []entrySpec
+			for _, e := range cur {
+				es = append(es, e)
+			}
+			sort.Slice(es, func(i, j int) bool { return es[i].Name < es[j].Name })
+			before := shared.Len()
+			var got cid.Cid
+			var gsz uint64
+			var err error
+			must(t, "rebuild into shared store", func() { got, gsz, err = buildSharded(shared, es, fanout) })
+			if err != nil {
+				t.Fatalf("C08: builder: %v", err)
+			}
+			fresh := NewStore()
+			want, wsz, err := refBuildShard(fresh, es, fanout)
+			if err != nil {
+				t.Fatalf("reference: %v", err)
+			}
+			if got != want || gsz != wsz {
+				t.Fatalf("C08: build #%d (fanout %d, %d entries) into a store that already held %d blocks: builder %s/%d, reference %s/%d", s+1, fanout, len(es), before, got, gsz, want, wsz)
+			}
+			if s > 0 && shared.Len()-before < fresh.Len() {
+				recreated = true
+			}
+		}
+		ev.Case(fmt.Sprintf("f=%d n=%s steps=%d re=%v", fanout, bucket(len(names)), steps, recreated), recreated, fmt.Sprintf("fanout:%d", fanout), fmt.Sprintf("recreated:%v", recreated))
+		ev.Sample(map[string]any{"fanout": fanout, "entries": len(names), "steps": steps, "shared_store_blocks": shared.Len()})
+	})
+}
